@@ -32,16 +32,17 @@ class Spec(dict):
     pass
 
 
-def spec(np_=1, nl=1, flows=None, tprops='', bprops='', prio=False, tag='', derived=False, args=()):
+def spec(np_=1, nl=1, flows=None, tprops='', bprops='', prio=False, tag='', derived=False, args=(), iters=0):
     """derived: the second parameter is defined by an expression of the first (p1 = p0 + 1) and the third ranges up to it; args: extra ptgpp options"""
     return Spec(np=np_, nl=nl, flows=flows if flows is not None else [flow('RW', [dep('data')], [dep('data')])],
-                tprops=tprops, bprops=bprops, prio=prio, tag=tag, derived=derived, args=list(args))
+                tprops=tprops, bprops=bprops, prio=prio, tag=tag, derived=derived, args=list(args), iters=iters)
+    # iters: number of local-definition iterators ([ i0 = 0 .. 1, ... ]) on an extra output dep of the first flow; each needs one more local slot
 
 
 def classify(sp, lim):
     """'over' if a count certainly exceeds a limit of the build, 'edge' if a ternary makes the count ambiguous at the limit, else 'within'."""
     over = False; edge = False
-    if sp['np'] + sp['nl'] > lim['MAX_LOCAL_COUNT']:
+    if sp['np'] + sp['nl'] + sp.get('iters', 0) > lim['MAX_LOCAL_COUNT']:      # iterator slots count as locals (jdf_generate_task_typedef)
         over = True
     fl = sp['flows']
     if len(fl) > lim['MAX_PARAM_COUNT']:
@@ -72,6 +73,7 @@ def render(sp):
         hdr = hdr.replace('%}\n', 'static parsec_key_t my_key(const parsec_taskpool_t *tp, const parsec_assignment_t *locals)\n{ (void)tp; return (parsec_key_t)locals[0].value; }\n%}\n', 1)
     out = [hdr]
     peers = []
+    iter_peer = None
     L = []
     L.append('S(%s)%s' % (', '.join(params), (' [%s]' % sp['tprops']) if sp['tprops'] else ''))
     L.append('  p0 = 0 .. NT-1')
@@ -133,6 +135,11 @@ def render(sp):
             if d['props']:
                 s += '  [%s]' % d['props']
             lines.append(s)
+        if fi == 0 and sp.get('iters', 0) and kind in ('RW', 'WRITE'):
+            k = sp['iters']
+            its = ', '.join('i%d = 0 .. 1' % j for j in range(k))
+            lines.append('-> [ %s ] (p0 >= 0) ? %s QIT(p0, %s)' % (its, fname, ', '.join('i%d' % j for j in range(k))))
+            iter_peer = (fname, k)
         head = '  %-5s %s ' % (kind, fname)
         if not lines:
             L.append(head.rstrip())
@@ -158,6 +165,11 @@ def render(sp):
         else:                        # the peer consumes what S sends
             P.append('  READ G <- %s' % sref)
         P += ['', 'BODY', '{', '    /* peer */', '}', 'END']
+        out.append('\n'.join(P) + '\n')
+    if iter_peer:
+        fname, k = iter_peer
+        P = ['', 'QIT(k, %s)' % ', '.join('i%d' % j for j in range(k)), '  k = 0 .. NT-1'] + ['  i%d = 0 .. 1' % j for j in range(k)] + [': A(k)', '',
+             '  READ %s <- %s S(%s)' % (fname, fname, zeros), '', 'BODY', '{', '    /* iterator peer */', '}', 'END']
         out.append('\n'.join(P) + '\n')
     text = '\n'.join(out)
     info = dict(first_task_call=first_task_call, peers=[p[0] for p in peers], nparams=np_)
@@ -244,6 +256,11 @@ def enumerate_specs(lim, tier):
     for tot in (ML - 1, ML, ML + 1):
         for np_ in ((1, 2, tot // 2) if thorough else (2,)):
             S.append(('tot%d_np%d' % (tot, np_), spec(np_, tot - np_)))
+    # A1b. local-definition iterators: named parameters + locals around the limit x 1..2 iterator slots (seeded change C24-1: the
+    #      limit check must count the iterator slots)
+    for k in (1, 2):
+        for tot in (ML - 3, ML - 2, ML - 1, ML):
+            S.append(('it%d_tot%d' % (k, tot), spec(1, tot - 1, iters=k)))
     # A2. number of flows x kind mix
     kindsets = [('RW',), ('READ',), ('WRITE',), ('CTL',), ('RW', 'READ', 'WRITE', 'CTL'), ('READ', 'WRITE')]
     for nf in five(MP):
